@@ -149,6 +149,17 @@ CHECKS["C07"] = dict(
          "submission order, with done when cancelled; freed operation states catch a context that keeps a reference.",
     note=MT_NOTE)
 
+CHECKS["C17"] = dict(
+    level="exploration", design="5 C17",
+    technique="runtime monitoring over enumerated inputs: per-index visit counters, terminal/overlap monitors on a custom "
+              "bulk receiver, stop injected at every cancellation-chunk boundary; find_if over exactly-sized heap ranges for "
+              "every enumerated length/policy/match position with a predicate address monitor, compared with std::find_if; ASan/UBSan",
+    text="bulk_schedule(n) must call set_next for each index exactly once before set_value, never after or overlapping the "
+         "terminal signal, never overlapping under sequenced policies; after a stop request the visited set must be a prefix "
+         "of whole chunks followed by done. find_if must equal std::find_if and call the predicate only on elements of the "
+         "range, for every enumerated length (thorough: all of 0..1100).",
+    note="Trusted base: harness/src/bulk.cpp, g++ ASan/UBSan. Exhaustive only over the enumerated lengths, policies and match positions.")
+
 NOT_YET = "check not built yet (construction in progress, see DESIGN.md section 10)"
 
 
